@@ -61,6 +61,15 @@ pub fn instantiate(
 }
 
 pub fn create_accounts(deps: &mut DepsMut, accounts: &[Cw20Coin]) -> StdResult<Uint128> {
+    // a repeated address would overwrite the earlier balance while still being counted in the
+    // total supply, leaving the supply above the sum of balances forever (as in cw20-base)
+    let mut addresses = accounts.iter().map(|c| &c.address).collect::<Vec<_>>();
+    addresses.sort();
+    addresses.dedup();
+    if addresses.len() != accounts.len() {
+        return Err(StdError::generic_err("Duplicate initial balance addresses"));
+    }
+
     let mut total_supply = Uint128::zero();
     for row in accounts {
         let address = deps.api.addr_canonicalize(&row.address)?;
